@@ -111,10 +111,31 @@ def exact_metrics(absg: List[Dict[str, Any]], g: fx.Graph) -> bool:
     return True
 
 
-def one_trace(g: fx.Graph, h: str, rtol: Tuple[int, int], targets: List[Any]) -> Dict[str, Any]:
+def rescaled(g: fx.Graph, k: int) -> fx.Graph:
+    """The same tracked graph with every recorded metric multiplied by 2^k (exact: a power of two).  'Same scale within rtol' is a
+    RELATIVE statement, so the helper must make the same decisions at any overall magnitude (tiny gradients of a 1e-9-scaled loss,
+    huge activations); the abstract graph sent to TLC keeps the unscaled rationals."""
+    g2 = copy.deepcopy(g)
+    f = 2.0 ** k
+    for n in g2.nodes:
+        m = n.meta.get("metrics")
+        if m is None:
+            continue
+        m = copy.deepcopy(m)
+        for d in (m.fwd, m.bwd):
+            if d is not None:
+                for fld in ("mean_abs", "abs_mean", "std", "abs_max", "abs_min"):
+                    setattr(d, fld, getattr(d, fld) * f)
+        n.meta["metrics"] = m
+    return g2
+
+
+def one_trace(g: fx.Graph, h: str, rtol: Tuple[int, int], targets: List[Any], magnitude: int = 0) -> Dict[str, Any]:
     from unit_scaling.transforms import prune_non_float_tensors, prune_same_scale_tensors, prune_selected_nodes
 
     absg, ids = fxgen.fx_to_abs(g)
+    if magnitude:
+        g = rescaled(g, magnitude)
     work = g if h != "selected" else copy.deepcopy(g)   # prune_selected_nodes works in place: give it its own copy
     err, out = "", None
     try:
@@ -218,6 +239,8 @@ def traces_for_graph(g: fx.Graph, rng: random.Random) -> List[Dict[str, Any]]:
     for rt in RTOLS:
         if not threshold_ambiguous(absg, rt):
             tr.append(one_trace(g, "same_scale", rt, []))
+            if rng.random() < 0.5:      # the same decision at another overall magnitude (2^-40 ~ 1e-12, 2^40 ~ 1e12)
+                tr.append(one_trace(g, "same_scale", rt, [], magnitude=rng.choice([-40, -30, 40])))
             if tgts and rng.random() < 0.5:
                 tr.append(chain_trace(g, rt, rng.sample(tgts, rng.randint(1, min(2, len(tgts))))))
         else:
